@@ -315,7 +315,10 @@ def run_sequential(h, ctx, ge):
     cfg = h['cfg']
     name = gen.cfg_str(cfg)
     rng = random.Random(h['hseed'])
-    alg = instrument(gen.make_algebra(cfg))
+    alg = gen.make_or_skip(ctx, cfg)
+    if alg is None:
+        return
+    alg = instrument(alg)
     regs = regfuncs(alg)
     steps = make_history(rng, alg, cfg, h['steps'])
     oracle = Oracle(cfg)
@@ -385,7 +388,10 @@ def run_threaded(h, ctx, ge):
     cfg = h['cfg']
     name = gen.cfg_str(cfg)
     T = h['threads']
-    alg = instrument(gen.make_algebra(cfg))
+    alg = gen.make_or_skip(ctx, cfg)
+    if alg is None:
+        return
+    alg = instrument(alg)
     regs = regfuncs(alg)
     hid = [name, h['hseed'], f'T{T}']
     if ctx.only_case is not None and ctx.only_case[:3] != hid:
@@ -471,7 +477,10 @@ def run_race(h, ctx, ge):
     for rnd in range(h['rounds']):
         if ctx.out_of_time():
             return
-        alg = instrument(gen.make_algebra(cfg))
+        alg = gen.make_or_skip(ctx, cfg)
+    if alg is None:
+        return
+    alg = instrument(alg)
         regs = regfuncs(alg)
         canon = list(alg.canon2bin.values())
         ks = gen.random_subset(rng, canon, 3, 2)
